@@ -56,6 +56,11 @@ def plan(tier):
             out.append(("trunc-random", fam, k, None))
         for k in range(10):
             out.append(("ood", fam, k, None))
+        # whole-number parameters inside the domain, handed over as integers (the class documentation writes "c=3")
+        (a0_, a1_), (c0_, c1_), _b = DOMAIN[fam]
+        for ai in range(math.ceil(a0_), math.floor(a1_) + 1):
+            for ci in range(math.ceil(c0_), math.floor(c1_) + 1):
+                out.append(("trunc-int", fam, ai, ci))
         # interior parameters next to a line where two vertices of the exact intersection merge: separation 2e-4..8e-4,
         # well above the documented 1e-6 resolution yet close enough for a coarser de-duplication to bite
         for k in range(8 if tier == "quick" else 60):
@@ -144,15 +149,17 @@ def setup(rec, tier):
     return {"cf": cf}
 
 
-def check_truncation(rec, fam, F, a, c, b, corner=None):
+def check_truncation(rec, fam, F, a, c, b, corner=None, call=None, form=None):
     planes = np.asarray(F.get_planes(), float)
     types = np.asarray(F.get_plane_types())
     dists = np.array([a, b, c])[types]
     info = {"family": fam, "a": a, "b": b, "c": c}
+    if form:
+        info["call_form"] = form
     exact = enumerate_vertices(planes, dists)
     sep = min_separation(exact) if len(exact) > 1 else 0.0
     try:
-        shape = F.get_shape(a, c)
+        shape = F.get_shape(a, c) if call is None else call()
     except ValueError as e:
         if sep > 1e-4:
             rec.violation("truncation:inside-halfspaces", f"{fam}.get_shape/raises-ValueError-although-vertices-well-separated",
@@ -274,6 +281,17 @@ def run_case(i, rng, rec, tier, state):
             rec.nontriv(fam, a, c)
         if i % 97 == 0:
             rec.sample({"family": fam, "a": a, "c": c})
+        return
+    if kind == "trunc-int":
+        (a0, a1), (c0, c1), b = DOMAIN[fam]
+        ai, ci = int(p1), int(p2)
+        corner = CORNERS[fam].get((int(ai == a1) if ai in (a0, a1) else -1, int(ci == c1) if ci in (c0, c1) else -1))
+        for form, call in (("python ints", lambda: F.get_shape(ai, ci)), ("numpy int64", lambda: F.get_shape(np.int64(ai), np.int64(ci))),
+                           ("int keywords", lambda: F.get_shape(a=ai, c=ci)), ("int a, float c", lambda: F.get_shape(ai, float(ci))),
+                           ("float a, int32 c", lambda: F.get_shape(float(ai), np.int32(ci)))):
+            rec.cls("call-form:" + form)
+            check_truncation(rec, fam, F, float(ai), float(ci), b, corner, call=call, form=form)
+        rec.nontriv(fam, "int", ai, ci)
         return
     if kind == "ood":
         (a0, a1), (c0, c1), b = DOMAIN[fam]
